@@ -113,7 +113,6 @@ pub struct Incarnation {
     /// Stopped by context cancellation (operator stop, end of epoch) rather than killed.
     pub graceful: bool,
     pub inbound: sync::prunable_mpsc::Sender<ConsensusReq>,
-    pub outbound: channel::UnboundedReceiver<ConsensusInputMessage>,
     pub kill: Option<oneshot::Sender<()>>,
     pub done: tokio::task::JoinHandle<anyhow::Result<()>>,
     pub mgr: Arc<Mutex<Option<Arc<EngineManager>>>>,
@@ -160,7 +159,17 @@ pub struct Cluster {
     pub panics_seen: usize,
     /// Shutting down: keep stepping even though a violation was recorded.
     pub draining: bool,
-    pub snaps: Rc<std::cell::RefCell<Vec<bft::verif::Snapshot>>>,
+    /// Observations in the order in which they happened: messages sent by a node's live
+    /// incarnation and replica snapshots (the observer drains the node's outbound channel before
+    /// recording a snapshot, so a message always precedes the snapshot of the state it was sent in).
+    pub obs: Rc<std::cell::RefCell<Vec<Obs>>>,
+    /// Outbound channel of the live incarnation of each node.
+    pub outs: Rc<std::cell::RefCell<Vec<Option<channel::UnboundedReceiver<ConsensusInputMessage>>>>>,
+}
+
+pub enum Obs {
+    Msg(usize, validator::Signed<validator::ConsensusMsg>),
+    Snap(usize, bft::verif::Snapshot),
 }
 
 pub fn make_committee(cfg: &Cfg) -> Committee {
@@ -231,7 +240,24 @@ impl Cluster {
                 snap: None,
             })
             .collect();
+        let pubkeys = committee.pubkeys.clone();
         let adversary = Adversary::new(committee, kit::stream(cfg.seed, "adv"));
+        let obs: Rc<std::cell::RefCell<Vec<Obs>>> = Default::default();
+        let outs: Rc<std::cell::RefCell<Vec<Option<channel::UnboundedReceiver<ConsensusInputMessage>>>>> =
+            Rc::new(std::cell::RefCell::new((0..n).map(|_| None).collect()));
+        {
+            let (obs, outs) = (obs.clone(), outs.clone());
+            bft::verif::install_observer(Some(Rc::new(move |s: bft::verif::Snapshot| {
+                let Some(i) = pubkeys.iter().position(|k| *k == s.key) else { return };
+                let mut o = obs.borrow_mut();
+                if let Some(r) = &mut outs.borrow_mut()[i] {
+                    while let Some(m) = r.try_recv() {
+                        o.push(Obs::Msg(i, m.message));
+                    }
+                }
+                o.push(Obs::Snap(i, s));
+            })));
+        }
         Self {
             hub,
             sched,
@@ -247,12 +273,8 @@ impl Cluster {
             sync_tasks: vec![],
             panics_seen: kit::panics::count(),
             draining: false,
-            snaps: {
-                let snaps: Rc<std::cell::RefCell<Vec<bft::verif::Snapshot>>> = Default::default();
-                let s2 = snaps.clone();
-                bft::verif::install_observer(Some(Rc::new(move |s| s2.borrow_mut().push(s))));
-                snaps
-            },
+            obs,
+            outs,
             cfg,
         }
     }
@@ -288,7 +310,6 @@ impl Cluster {
         let view_timeout = time::Duration::milliseconds(self.cfg.view_timeout_ms);
         hub.ev(format!("n{i}.{inc} start"));
         self.nodes[i].view = None;
-        self.nodes[i].snap = None;
         self.sched.set_spawn_tag(tag_of(i, inc));
         let done = gtokio::spawn(async move {
             let root = ctx::test_root(&clock);
@@ -317,11 +338,11 @@ impl Cluster {
             .await
         });
         self.sched.set_spawn_tag(0);
+        self.outs.borrow_mut()[i] = Some(out_recv);
         self.nodes[i].live = Some(Incarnation {
             inc,
             graceful: false,
             inbound: in_send,
-            outbound: out_recv,
             kill: Some(kill_send),
             done,
             mgr: mgr_slot,
@@ -342,6 +363,7 @@ impl Cluster {
                 self.hub.inner.lock().unwrap().crashed.retain(|x| *x != i);
             }
         }
+        self.outs.borrow_mut()[i] = None;
         self.hub.ev(format!("n{i}.{} crash ({why})", inc.inc));
         if let Some(k) = inc.kill.take() {
             let _ = k.send(());
@@ -356,6 +378,7 @@ impl Cluster {
         let Some(mut inc) = self.nodes[i].live.take() else {
             return;
         };
+        self.outs.borrow_mut()[i] = None;
         self.hub.ev(format!("n{i}.{} graceful stop ({why})", inc.inc));
         inc.graceful = true;
         if let Some(k) = inc.kill.take() {
@@ -392,70 +415,80 @@ impl Cluster {
         for i in crashed {
             self.crash(i, "inside durable write");
         }
-        // Replica snapshots (hook H3) of live incarnations.
-        let snaps: Vec<bft::verif::Snapshot> = std::mem::take(&mut *self.snaps.borrow_mut());
-        for s in snaps {
-            let Some(i) = self.hub.committee.idx(&s.key) else { continue };
-            let Some(live) = &self.nodes[i].live else { continue };
-            let is_live = live
-                .mgr
-                .lock()
-                .unwrap()
-                .as_ref()
-                .is_some_and(|m| Arc::as_ptr(m) as usize == s.engine_id);
-            if !is_live {
-                continue;
+        // Observations, in order.
+        {
+            let mut o = self.obs.borrow_mut();
+            let mut outs = self.outs.borrow_mut();
+            for i in 0..self.nodes.len() {
+                if let Some(r) = &mut outs[i] {
+                    while let Some(m) = r.try_recv() {
+                        o.push(Obs::Msg(i, m.message));
+                    }
+                }
             }
-            let durable = {
-                let st = self.nodes[i].store.lock().unwrap();
-                let validator::ReplicaState::V2(d) = st.disk.replica_state();
-                d
-            };
-            let inc = live.inc;
-            self.nodes[i].view = Some(s.view.0);
-            self.nodes[i].deadline = s.view_timeout;
-            self.hub.on_snapshot(i, inc, &s, &durable);
-            self.nodes[i].snap = Some(s);
         }
-        for i in 0..self.n() {
-            // Discard whatever dying incarnations still say.
-            for d in &mut self.nodes[i].dying {
-                while d.outbound.try_recv().is_some() {}
-            }
-            let mut finished = None;
-            if let Some(live) = &mut self.nodes[i].live {
-                let mut msgs = vec![];
-                while let Some(m) = live.outbound.try_recv() {
-                    msgs.push(m.message);
-                }
-                if live.done.is_finished() {
-                    finished = Some(live.inc);
-                }
-                let inc = live.inc;
-                if !msgs.is_empty() {
+        let obs: Vec<Obs> = std::mem::take(&mut *self.obs.borrow_mut());
+        let live_engine = |me: &Self, i: usize| -> Option<(u64, usize)> {
+            let live = me.nodes[i].live.as_ref()?;
+            let id = live.mgr.lock().unwrap().as_ref().map(|m| Arc::as_ptr(m) as usize)?;
+            Some((live.inc, id))
+        };
+        for k in 0..obs.len() {
+            match &obs[k] {
+                Obs::Snap(i, s) => {
+                    let i = *i;
+                    let Some((inc, id)) = live_engine(self, i) else { continue };
+                    if id != s.engine_id {
+                        continue;
+                    }
                     let durable = {
-                        let s = self.nodes[i].store.lock().unwrap();
-                        let validator::ReplicaState::V2(d) = s.disk.replica_state();
+                        let st = self.nodes[i].store.lock().unwrap();
+                        let validator::ReplicaState::V2(d) = st.disk.replica_state();
                         d
                     };
-                    for m in msgs {
-                        self.hub.ev(format!("n{i}.{inc} -> {}", describe(&m)));
-                        self.hub.on_outbound(i, inc, &m, &durable);
-                        self.hub.check_self_justifying(i, inc, &m, self.nodes[i].view, self.nodes[i].snap.as_ref());
-                        self.adversary.observe(&m);
-                        for to in 0..self.n() {
-                            if self.is_byz(to) {
-                                continue;
-                            }
-                            self.next_msg_id += 1;
-                            self.inflight.push(InFlight {
-                                id: self.next_msg_id,
-                                from: i,
-                                to,
-                                msg: m.clone(),
-                            });
+                    self.nodes[i].view = Some(s.view.0);
+                    self.nodes[i].deadline = s.view_timeout;
+                    self.hub.on_snapshot(i, inc, s, &durable);
+                }
+                Obs::Msg(i, m) => {
+                    let i = *i;
+                    let Some((inc, id)) = live_engine(self, i) else {
+                        // Sent before the engine manager existed cannot happen; sent by an
+                        // incarnation which has been killed meanwhile: not observable.
+                        if self.nodes[i].live.is_none() {
+                            continue;
                         }
+                        continue;
+                    };
+                    let durable = {
+                        let st = self.nodes[i].store.lock().unwrap();
+                        let validator::ReplicaState::V2(d) = st.disk.replica_state();
+                        d
+                    };
+                    // The state the message was sent in = the node's next snapshot.
+                    let next_snap = obs[k + 1..].iter().find_map(|o| match o {
+                        Obs::Snap(j, s) if *j == i && s.engine_id == id => Some(s),
+                        _ => None,
+                    });
+                    self.hub.ev(format!("n{i}.{inc} -> {}", describe(m)));
+                    self.hub.on_outbound(i, inc, m, &durable);
+                    self.hub.check_self_justifying(i, inc, m, self.nodes[i].view, next_snap);
+                    self.adversary.observe(m);
+                    for to in 0..self.n() {
+                        if self.is_byz(to) {
+                            continue;
+                        }
+                        self.next_msg_id += 1;
+                        self.inflight.push(InFlight { id: self.next_msg_id, from: i, to, msg: m.clone() });
                     }
+                }
+            }
+        }
+        for i in 0..self.n() {
+            let mut finished = None;
+            if let Some(live) = &self.nodes[i].live {
+                if live.done.is_finished() {
+                    finished = Some(live.inc);
                 }
             }
             if let Some(inc) = finished {
